@@ -3,7 +3,7 @@
 imc_solve: generated non-symmetric dyadic A, b, regularisation, multi-interaction index files -> residual of
            (A^T A + r I) x = -A^T b and exact index split, everything recomputed from the written files.
 fmatch   : synthetic force fields that lie inside csg_fmatch's fit space (natural cubic splines on the fit grid):
-           pair, bond, angle, dihedral force functions; reference forces analytic (own gradients), written as a
+           pair, bond, angle, dihedral (plain and fmatch.periodic) force functions; reference forces analytic (own gradients), written as a
            DL_POLY HISTORY (.dlph) trajectory; the written *.force tables must reproduce the generating functions.
 """
 import glob
@@ -216,13 +216,19 @@ def spline_design(knots, x):
     return i, a, bb, c, dd
 
 
-def spline_constraints(knots):
-    """n rows: natural ends + continuity of the first derivative at interior knots"""
+def spline_constraints(knots, periodic=False):
+    """n rows: natural ends + continuity of the first derivative at interior knots; periodic: n+1 rows, equal end values,
+    equal end curvatures, knot values summing to zero (the documented meaning of fmatch.periodic) + the interior rows"""
     knots = np.asarray(knots, float)
     n = len(knots)
-    B = np.zeros((n, 2 * n))
-    B[0, n] = 1.0
-    B[n - 1, 2 * n - 1] = 1.0
+    B = np.zeros((n + (1 if periodic else 0), 2 * n))
+    if periodic:
+        B[0, 0], B[0, n - 1] = 1.0, -1.0
+        B[n - 1, n], B[n - 1, 2 * n - 1] = 1.0, -1.0
+        B[n, :n] = 1.0
+    else:
+        B[0, n] = 1.0
+        B[n - 1, 2 * n - 1] = 1.0
     for i in range(1, n - 1):
         h0 = knots[i] - knots[i - 1]
         h1 = knots[i + 1] - knots[i]
@@ -347,13 +353,24 @@ def fm_cases(draw):
         dihedral=dict(lo=draw(st.sampled_from([-2800, -2000, -1000, 0])), nint=draw(st.integers(4, 8)), step=draw(st.sampled_from([200, 300, 350])),
                       vals=[draw(KNOTVAL) for _ in range(9)]))
     return dict(kind=kind, nside=nside, nfr=nfr, fpb=fpb, cls=cls, nb=nb, angle=angle, dihedral=dihedral, two_types=two_types, seed=seed,
-                spec=spec, equal_bonds=draw(st.integers(0, 5)) == 0)
+                spec=spec, equal_bonds=draw(st.integers(0, 5)) == 0,
+                # fmatch.periodic on the dihedral ("enforces periodicity of potential"): generating function = periodic spline with
+                # equal end values / curvatures and knot values summing to zero, i.e. inside that constrained spline space
+                periodic=draw(st.booleans()))
 
 
 class Inter:
-    def __init__(self, name, typ, knots, vals, tag=None):
+    def __init__(self, name, typ, knots, vals, tag=None, periodic=False):
         self.name, self.typ, self.knots, self.vals, self.tag = name, typ, np.asarray(knots, float), np.asarray(vals, float), tag
-        self.f = nat_spline(self.knots, self.vals)
+        self.periodic = periodic
+        if periodic:
+            v = self.vals.copy()
+            v[-1] = v[0]
+            v -= v.sum() / len(v)
+            self.vals = v
+            self.f = CubicSpline(self.knots, v, bc_type="periodic")
+        else:
+            self.f = nat_spline(self.knots, self.vals)
         self.samples = []   # (frame, q, [(bead, grad vec)])
 
 
@@ -435,7 +452,7 @@ def build_fm(case, ctx):
     if do_angle:
         inters.append(Inter("angle", "angle", ak, sp["angle"]["vals"][:len(ak)]))
     if do_dih:
-        inters.append(Inter("dihedral", "dihedral", dk, sp["dihedral"]["vals"][:len(dk)]))
+        inters.append(Inter("dihedral", "dihedral", dk, sp["dihedral"]["vals"][:len(dk)], periodic=bool(case.get("periodic"))))
     # bonded samples
     for fr, X in enumerate(frames):
         for m in range(nmol):
@@ -548,14 +565,14 @@ def numpy_fit(S, case, frames_in_block):
                     A[row, o + n + i0 + 1] += d_ * g[c]
     for k, fr in enumerate(frames_in_block):
         bvec[3 * nbead * k:3 * nbead * (k + 1)] = S["F"][fr].reshape(-1)
-    B = np.zeros((sum(len(it.knots) for it in inters), ncol))
+    B = np.zeros((sum(len(it.knots) + (1 if it.periodic else 0) for it in inters), ncol))
     ro = 0
     for it, o in zip(inters, off):
         n = len(it.knots)
-        Bi = spline_constraints(it.knots)
-        B[ro:ro + n, o:o + n] = Bi[:, :n]
-        B[ro:ro + n, o + n:o + 2 * n] = Bi[:, n:]
-        ro += n
+        Bi = spline_constraints(it.knots, it.periodic)
+        B[ro:ro + len(Bi), o:o + n] = Bi[:, :n]
+        B[ro:ro + len(Bi), o + n:o + 2 * n] = Bi[:, n:]
+        ro += len(Bi)
     if case["cls"]:
         u, s, vt = np.linalg.svd(B)
         N = vt[len(s):].T                # orthonormal null-space basis (B has full row rank)
@@ -624,6 +641,8 @@ def write_fm_inputs(S, case, d):
             if it.typ == "nb":
                 f.write(f" <non-bonded>\n  <name>{it.name}</name>\n  <type1>{it.tag[0]}</type1>\n  <type2>{it.tag[1]}</type2>\n{body} </non-bonded>\n")
             else:
+                if it.periodic:
+                    body = body.replace("  </fmatch>\n", "   <periodic>1</periodic>\n  </fmatch>\n")
                 f.write(f" <bonded>\n  <name>{it.name}</name>\n{body} </bonded>\n")
         f.write("</cg>\n")
     L = S["L"]
@@ -680,6 +699,9 @@ def run_fm(case, ctx, d):
     r.cls("frames_per_block:%d" % fpb)
     if case["two_types"]:
         r.cls("two-bead-types")
+    has_periodic = any(it.periodic for it in S["inters"])
+    if has_periodic:
+        r.cls("periodic-dihedral")
     if S["excl_note"]:
         r.cls(S["excl_note"])
     r.cls("cond<1e4" if cond < 1e4 else "cond<1e7" if cond < 1e7 else "cond<1e10")
@@ -689,7 +711,7 @@ def run_fm(case, ctx, d):
     has_angle = "angle" in kinds
     has_dih = "dihedral" in kinds
     has_bond = "bond" in kinds
-    where = "fmatch/angle-gradient" if has_angle else "fmatch/dihedral" if has_dih else "fmatch/bond" if has_bond else "fmatch/nonbonded"
+    where = "fmatch/periodic-constrained" if (has_periodic and case["cls"]) else "fmatch/periodic" if has_periodic else "fmatch/angle-gradient" if has_angle else "fmatch/dihedral" if has_dih else "fmatch/bond" if has_bond else "fmatch/nonbonded"
     if sanitizer_report(out):
         return r.fail("fmatch/sanitizer", out[-2000:])
     if rcode != 0:
